@@ -1761,6 +1761,11 @@ class Run:
             self.assume(f)
         for _nm, f in lspec.inv(self, ghosts):
             self.assume(f)
+        # termination (only where the contract asks for it): a while loop needs a variant - an integer expression that is
+        # non-negative whenever the body is entered and strictly smaller at every back-edge.  for loops run over a finite
+        # sequence the body may not mutate (guard above), so they terminate when their bodies do.
+        tvar = getattr(self.spec, "termination_variant", None) if (not is_for and getattr(self.spec, "termination", False)) else None
+        tmark = tvar(self, lspec, ghosts, None) if tvar is not None else None
         # 3. exit or iterate
         if is_for:
             enter = self.branch(idx.t < ln, f"for{ordinal}")
@@ -1810,6 +1815,10 @@ class Run:
             self.assume(f)
         for nm, f in lspec.inv(self, gb):
             self.oblige(f"loop{ordinal}.step.{nm}", f)
+        if tvar is not None:
+            v0 = tmark[0]
+            v1, hyps = tvar(self, lspec, gb, tmark)
+            self.oblige(f"loop{ordinal}.decreases", z3.Implies(z3.And(*hyps) if hyps else z3.BoolVal(True), z3.And(v0 >= 0, v1 < v0)))
         raise PathEnd
 
     def _havoc_val(self, name: str, cur: Any) -> Any:
